@@ -228,7 +228,12 @@ where
             // Start a multi-block read
             self.card_command(CMD18, start_idx)?;
             for block in blocks.iter_mut() {
-                self.read_data(&mut block.contents)?;
+                if let Err(e) = self.read_data(&mut block.contents) {
+                    // The card keeps streaming blocks until it is told to stop,
+                    // so the transfer is ended also when it has failed.
+                    let _ = self.card_command(CMD12, 0);
+                    return Err(e);
+                }
             }
             // Stop the read
             self.card_command(CMD12, 0)?;
@@ -269,8 +274,21 @@ where
             // Start a multi-block write
             self.card_command(CMD25, start_idx)?;
             for block in blocks.iter() {
-                self.wait_not_busy(Delay::new_write())?;
-                self.write_data(WRITE_MULTIPLE_TOKEN, &block.contents)?;
+                let sent = match self.wait_not_busy(Delay::new_write()) {
+                    Ok(()) => self.write_data(WRITE_MULTIPLE_TOKEN, &block.contents),
+                    Err(e) => Err(e),
+                };
+                if let Err(e) = sent {
+                    // The card stays in the receive state until it sees the
+                    // stop token, so the transfer is ended also when it has
+                    // failed (the token is only taken while the card is not busy).
+                    if self.wait_not_busy(Delay::new_write()).is_ok() {
+                        let _ = self.write_byte(STOP_TRAN_TOKEN);
+                        let _ = self.read_byte();
+                        let _ = self.wait_not_busy(Delay::new_write());
+                    }
+                    return Err(e);
+                }
             }
             // Stop the write
             self.wait_not_busy(Delay::new_write())?;
